@@ -112,9 +112,32 @@ or not, has it (`ModuleInfoRef::exports`, as a set: C16) -/
 def resolves (w : World) (x n : Nat) : Bool :=
   (starClosure w w.length [x]).any fun y => ownsName (w.mod y) n
 
-/-- the first `export *` of a module through which a name is found; `default` never is -/
+/-- the first `export *` of a module through which a name is found; `default` never is
+(the choice before the repair of F34: each target's export table computed on its own) -/
 def starProvider (w : World) (md : Mod) (n : Nat) : Option Nat :=
   if n = 0 then none else md.stars.find? fun x => resolves w x n
+
+/-- `exports_and_re_exports_inner` for one name: depth first from `x`, the modules visited so far
+are never entered again, a module's own names come before those of its `export *` targets, the
+targets are tried in order.  The result is the visited set and, when the name is found, the
+`export *` edges leading to the module that has it as its own. -/
+def findName (w : World) : Nat → List Nat → Nat → Nat → List Nat × Option (List (Nat × Nat) × Nat)
+  | 0, vis, _, _ => (vis, none)
+  | f + 1, vis, x, n =>
+    if vis.contains x then (vis, none)
+    else if ownsName (w.mod x) n then (x :: vis, some ([], x))
+    else
+      (w.mod x).stars.foldl (fun (acc : List Nat × Option (List (Nat × Nat) × Nat)) s =>
+        match acc.2 with
+        | some _ => acc
+        | none =>
+          let r := findName w f acc.1 s n
+          (r.1, r.2.map fun pd => ((x, s) :: pd.1, pd.2))) (x :: vis, none)
+
+/-- the path along which module `m` has a name that is not its own: resolved from `m` itself, so a
+cycle of `export *` declarations is never followed back to `m`; `default` has none -/
+def findPath (w : World) (m n : Nat) : Option (List (Nat × Nat) × Nat) :=
+  if n = 0 then none else (findName w (w.length + 1) [] m n).2
 
 def stepReqName (w : World) (s : State) (m n : Nat) : State :=
   let md := w.mod m
@@ -128,10 +151,14 @@ def stepReqName (w : World) (s : State) (m n : Nat) : State :=
       match findFrom md n with
       | some p => { s with exportFrom := ins (m, n) s.exportFrom, work := s.work ++ [.reqName p.2.1 p.2.2] }
       | none =>
-        -- not a name of the module itself: the first `export *` that provides it is kept and asked;
-        -- when none does (or for `default`) every `export *` is kept and nothing is asked
-        match starProvider w md n with
-        | some x => { s with stars := ins (m, x) s.stars, work := s.work ++ [.reqName x n] }
+        -- not a name of the module itself: it is resolved from this module along its `export *`
+        -- declarations; when that fails (or for `default`) every `export *` is kept, nothing is asked
+        match findPath w m n with
+        | some (edges, d) =>
+          -- the `export *` of every module on the way is kept, those modules are looked at, and
+          -- the module at the end of the path is asked for the name
+          { s with stars := insAll edges s.stars, modules := insAll (edges.map (·.2)) s.modules,
+                   work := s.work ++ [.reqName d n] }
         | none => { s with stars := insAll (md.stars.map fun x => (m, x)) s.stars }
 
 def stepLocal (w : World) (s : State) (m l : Nat) : State :=
